@@ -432,6 +432,10 @@ class GridFlow(WidgetWrap[Pile], WidgetContainerMixin, WidgetContainerListConten
         #     Divider(), # possibly
         #     ...])
 
+        if self._cache_maxcol is None:
+            # the cells or the focus were changed while the display widget was handling the event
+            # (by a cell's own handler): it no longer describes this widget
+            return
         pile_focus = self._w.focus
         if pile_focus is None:
             return
